@@ -1,4 +1,4 @@
-import LitexModel.Csr.Num
+import LitexModel.Csr.NumGlue
 open Litex Litex.Driver Litex.Csr
 
 def openMachine (args : List String) (hin hout : IO.FS.Stream) : Option (IO Bool) :=
@@ -21,6 +21,18 @@ def openMachine (args : List String) (hin hout : IO.FS.Stream) : Option (IO Bool
       | some c => some (serve (numArray nm c) hin hout)
       | none => none
     | _ => none
+  | "garray" :: ps =>
+    match parseNats ps with
+    | some ns => match parseGlue ns with
+      | some g => some (serve (numGlue g) hin hout)
+      | none => none
+    | none => none
+  | "sarray" :: ps =>
+    match parseNats ps with
+    | some ns => match parseScanGlue ns with
+      | some g => some (serve (numGlue g) hin hout)
+      | none => none
+    | none => none
   | _ => none
 
 def call (args : List String) : Option String :=
@@ -28,6 +40,9 @@ def call (args : List String) : Option String :=
   | "sort" :: ps => (parseNats ps).map callSort
   | "fields" :: ps => (parseNats ps).map callFields
   | "layout" :: ps => (parseNats ps).map callLayout
+  | "like" :: ps => (parseNats ps).map callLike
+  | "nlocs" :: ps => (parseNats ps).map callNLocs
+  | "scan" :: ps => (parseNats ps).map callScan
   | _ => none
 
 def main : IO Unit := mainLoop openMachine call
